@@ -14,7 +14,8 @@ It does not decide that emit() reproduces the right bytes (numerical)."""
 import cfg, rules, expandrules
 from irdb import broken, enumerators, init_ints
 from prov import Prov, strip_casts, strip_ext, addr_key, path_key, render, peel_cond, cmp_norm
-from props import c05
+from props import c05, c16, c21
+import conc
 
 LEVEL = 'other'
 
@@ -249,3 +250,9 @@ def run(ctx):
     c05.parse_fsm_rule(ctx, prog, pfx='C15')
     expandrules.parse_task_obligations(ctx, prog, 'C15')
     expandrules.emit_obligations(ctx, prog, 'C15')
+    # a detected mismatch becomes exit status 1: fail* never return, bailout() exits 1 on the main thread and
+    # raises SIGUSR1 elsewhere, and that signal is deliverable to the main thread whatever mask was inherited
+    A = conc.Analysis(prog)
+    c21.fail_family(ctx, prog, A)
+    c21.bailout_rules(ctx, prog, A)
+    c16.signal_window(ctx, prog, A)
